@@ -24,11 +24,11 @@ confirm)
   echo "== demo with the change (must fail)"
   cargo test --offline $fl --test seeded_demo 2>&1 | grep -E "^test result|error(\[|:)" | head -3
   with=$(cargo test --offline $fl --test seeded_demo 2>&1 | grep -cE "^test result: FAILED")
-  git stash push -q -- src
+  git diff -- src > /tmp/seedtool_$name.patch; git checkout -q -- src
   echo "== demo without the change (must pass)"
   cargo test --offline $fl --test seeded_demo 2>&1 | grep -E "^test result|error(\[|:)" | head -3
   without=$(cargo test --offline $fl --test seeded_demo 2>&1 | grep -cE "^test result: ok")
-  git stash pop -q
+  git apply /tmp/seedtool_$name.patch
   echo "with_change_failed=$with without_change_passed=$without"
   python3 - <<PY
 import json
